@@ -6,10 +6,38 @@
 From Boltons Require Import Lib.Prelude Lib.C02_Syntax Spec.C02_Spec Spec.C02_SpecImpure Model.C02_Model.
 Open Scope N_scope.
 
-Definition run_script (c : cfg) (m : cache) (ops : list op1) : cache :=
-  fold_left (fun m o => fst (step1 c m o)) ops m.
+(* one public method call, given how __getitem__ behaves *)
+Definition xstep1_with (gi : cache -> K -> cache * res V) (c : cfg) (m : cache) (o : op1) : cache * res outv :=
+  match o with
+  | GetItem k => lift OVal (gi m k)
+  | Get k d =>
+      match gi m k with
+      | (m', Ok v) => (m', Ok (OVal v))
+      | (m', Raise KeyError) => (bump_soft m', Ok (OVal d))
+      | (m', Raise e) => (m', Raise e)
+      end
+  | SetDefault k d =>
+      match gi m k with
+      | (m', Ok v) => (m', Ok (OVal v))
+      | (m', Raise KeyError) => lift (fun _ => OVal d) (setitem c (bump_soft m') k d)
+      | (m', Raise e) => (m', Raise e)
+      end
+  | _ => step1 c m o
+  end.
 
-Definition xgetitem (c : cfg) (beh : K -> om_beh) (m : cache) (k : K) : cache * res V :=
+(* the body of on_miss: each operation in a `try: ... except KeyError: pass`; another
+   exception ends it *)
+Fixpoint run_script (stepf : cache -> op1 -> cache * res outv) (m : cache) (ops : list op1) : cache * option exn :=
+  match ops with
+  | [] => (m, None)
+  | o :: rest =>
+      match stepf m o with
+      | (m', Ok _) | (m', Raise KeyError) => run_script stepf m' rest
+      | (m', Raise e) => (m', Some e)
+      end
+  end.
+
+Fixpoint xgetitem_n (n : nat) (c : cfg) (beh : K -> om_beh) (m : cache) (k : K) : cache * res V :=
   match d_get (ring m) k with
   | Some v =>
       let r' := match c_cls c with
@@ -23,36 +51,31 @@ Definition xgetitem (c : cfg) (beh : K -> om_beh) (m : cache) (k : K) : cache * 
       | None => (m1, Raise KeyError)
       | Some f =>
           let m2 := mkC (store m1) (ring m1) (hit m1) (miss m1) (soft m1) (k :: calls m1) in
-          let m3 := run_script c m2 (ob_script (beh k)) in          (* what on_miss does to the cache *)
-          match ob_raise (beh k) with
-          | Some e => (m3, Raise e)                                  (* on_miss raises: nothing is assigned *)
-          | None =>
-              let v := f k in
-              match setitem c m3 k v with
-              | (m4, Ok _) => (m4, Ok v)
-              | (m4, Raise e) => (m4, Raise e)
+          match n with
+          | O => (m2, Raise (OtherExn 9))
+          | S n' =>
+              (* what on_miss does to the cache; its lookups are nested __getitem__ calls *)
+              match run_script (xstep1_with (xgetitem_n n' c beh) c) m2 (ob_script (beh k)) with
+              | (m3, Some e) => (m3, Raise e)
+              | (m3, None) =>
+                  match ob_raise (beh k) with
+                  | Some e => (m3, Raise e)                          (* on_miss raises: nothing is assigned *)
+                  | None =>
+                      let v := f k in
+                      match setitem c m3 k v with
+                      | (m4, Ok _) => (m4, Ok v)
+                      | (m4, Raise e) => (m4, Raise e)
+                      end
+                  end
               end
           end
       end
   end.
 
+Definition xgetitem (c : cfg) (beh : K -> om_beh) : cache -> K -> cache * res V := xgetitem_n NEST c beh.
+
 Definition xstep1 (c : cfg) (beh : K -> om_beh) (m : cache) (o : op1) : cache * res outv :=
-  match o with
-  | GetItem k => lift OVal (xgetitem c beh m k)
-  | Get k d =>
-      match xgetitem c beh m k with
-      | (m', Ok v) => (m', Ok (OVal v))
-      | (m', Raise KeyError) => (bump_soft m', Ok (OVal d))
-      | (m', Raise e) => (m', Raise e)
-      end
-  | SetDefault k d =>
-      match xgetitem c beh m k with
-      | (m', Ok v) => (m', Ok (OVal v))
-      | (m', Raise KeyError) => lift (fun _ => OVal d) (setitem c (bump_soft m') k d)
-      | (m', Raise e) => (m', Raise e)
-      end
-  | _ => step1 c m o
-  end.
+  xstep1_with (xgetitem c beh) c m o.
 
 Definition xhstep (c : cfg) (beh : K -> om_beh) (h : list cache) (o : hop) : list cache * nat * res outv :=
   match o with
